@@ -147,7 +147,9 @@ func (s *FakeStaking) Validator(ctx sdk.Context, addr sdk.ValAddress) stakingtyp
 func (s *FakeStaking) ValidatorByConsAddr(sdk.Context, sdk.ConsAddress) stakingtypes.ValidatorI {
 	return nil
 }
-func (s *FakeStaking) GetParams(ctx sdk.Context) stakingtypes.Params { return stakingtypes.DefaultParams() }
+func (s *FakeStaking) GetParams(ctx sdk.Context) stakingtypes.Params {
+	return stakingtypes.DefaultParams()
+}
 func (s *FakeStaking) GetValidator(ctx sdk.Context, addr sdk.ValAddress) (stakingtypes.Validator, bool) {
 	for _, v := range s.vals {
 		if v.addr.Equals(addr) {
@@ -209,22 +211,22 @@ type Env struct {
 	bankKey   *sdk.KVStoreKey
 	oracleKey *sdk.KVStoreKey
 
-	cdc     codec.Codec
-	acc     authkeeper.AccountKeeper
-	bank    bankkeeper.BaseKeeper
-	staking *FakeStaking
-	oracle  *FakeOracle
-	k       keeper.Keeper
-	msg     types.MsgServer
-	ok      oraclekeeper.Keeper // real oracle keeper (used by oracle profiles)
+	cdc           codec.Codec
+	acc           authkeeper.AccountKeeper
+	bank          bankkeeper.BaseKeeper
+	staking       *FakeStaking
+	oracle        *FakeOracle
+	k             keeper.Keeper
+	msg           types.MsgServer
+	ok            oraclekeeper.Keeper // real oracle keeper (used by oracle profiles)
 	useRealOracle bool
 
 	// pending genesis configuration
-	params   types.Params
-	tokens   []*types.TokenInfo
-	inited   bool
-	height   int64
-	unixTime int64
+	params     types.Params
+	tokens     []*types.TokenInfo
+	inited     bool
+	height     int64
+	unixTime   int64
 	moduleAddr sdk.AccAddress
 	lastPanic  string
 	lastErr    string
